@@ -74,6 +74,12 @@ class Resolver:
             args = a.slice.elts if isinstance(a.slice, ast.Tuple) else [a.slice]
             if head == "Optional":
                 return ("opt", self.anno(module, args[0]))
+            if head == "Match":
+                return prim("match")
+            if head == "Pattern":
+                return prim("pattern")
+            if head in ("Final", "ClassVar", "Annotated"):
+                return self.anno(module, args[0])
             if head in ("Set", "set", "FrozenSet"):
                 return prim("set")
             if head in ("List", "list", "Sequence", "Iterable"):
@@ -103,6 +109,17 @@ class Resolver:
                     return ("callable", self.anno(module, args[1]), pts)
                 return UNK
             return UNK
+        if isinstance(a, ast.BinOp) and isinstance(a.op, ast.BitOr):
+            # X | None, bytes | bytearray | memoryview
+            parts = []
+            def flat(x):
+                if isinstance(x, ast.BinOp) and isinstance(x.op, ast.BitOr):
+                    flat(x.left); flat(x.right)
+                else:
+                    parts.append(x)
+            flat(a)
+            union = ast.Subscript(value=ast.Name(id="Union", ctx=ast.Load()), slice=ast.Tuple(elts=parts, ctx=ast.Load()), ctx=ast.Load())
+            return self.anno(module, union)
         return UNK
 
     def typevar(self, module: str, name: str) -> Optional[tuple]:
@@ -178,6 +195,11 @@ class Resolver:
                     t = self.anno(fi.module, n.annotation)
                     if t == UNK and n.value is not None:
                         t = self.type_of(n.value, fi, env)
+                    elif n.value is not None and self.strip_opt(t)[0] == "callable":
+                        # `f: Callable[...] = TABLE.get(k)`: which functions f can be is in the value, not in its signature
+                        vt = self.type_of(n.value, fi, env)
+                        if vt != UNK:
+                            t = vt
                     if isinstance(n.value, ast.Dict) and self._bound_once(node, n.target.id):
                         t = ("dictlit", fi.module, n.value)        # a local dispatch table
                     env[n.target.id] = t
